@@ -432,10 +432,20 @@ class BFGS(_AbstractMassMatrix):
         self.succesful_updates_current = 0
 
     def save(self):
-        self.backup = self.Minv.copy(), self.m.copy(), self.g.copy()
+        self.backup = (
+            self.Minv.copy(),
+            self.m.copy(),
+            self.g.copy(),
+            self.LTinv.copy(),
+        )
 
     def reset(self):
-        self.Minv, self.m, self.g = self.backup
+        self.Minv, self.m, self.g, self.LTinv = (
+            self.backup[0].copy(),
+            self.backup[1].copy(),
+            self.backup[2].copy(),
+            self.backup[3].copy(),
+        )
         self.ms, self.gs = [], []
 
     def update(self, m, g):
